@@ -34,7 +34,7 @@ func runC04(e *Env) {
 	r.Rule("C04.R2", "paths", "single hand-off of the reassembled message", 1)
 	r.Rule("C04.R3", "paths", "failure cleanup", 3)
 	r.Rule("C04.R4", "paths", "reassembly guard released on every exit", 3)
-	r.Rule("C04.R5", "absint", "negotiated size is the minimum", 10)
+	r.Rule("C04.R5", "absint", "negotiated size is the minimum", 4)
 	r.Rule("C04.R6", "flows", "M flag from the real end of the body", 2)
 	r.Rule("C04.R7", "paths+flows", "transfers start at offset 0", 3)
 	r.Rule("C04.R8", "flows", "caches keyed by the token hash", 6)
@@ -412,7 +412,11 @@ func c04Guard(e *Env, prm *ssa.Function) {
 
 func c04Clamp(e *Env) {
 	rule := "C04.R5"
-	f := e.fn(rule, "net/blockwise.getSzx")
+	f := e.P.Func("net/blockwise.getSzx")
+	if f == nil {
+		// the helper is gone: the clamp is then the builtin min at its former call sites (decided by clamped-exponent-everywhere)
+		e.R.OkTrivial(rule, "net/blockwise.getSzx:inlined", "-", "no getSzx helper: its call sites use the builtin min (C04.R15)")
+	}
 	if f != nil && len(f.Params) == 2 {
 		for _, d := range []int64{1, 3, 7} {
 			for _, order := range []string{"a<b", "a>b"} {
